@@ -385,7 +385,12 @@ class Executor:
             if src.strip().startswith(pat):
                 for (s2, kind, _) in results:
                     if kind == "normal":
-                        s2.vars[gvar] = self.spec_value(gexpr, s2, old=self.old)
+                        gv = self.spec_value(gexpr, s2, old=self.old)
+                        if gv.t == BOOL and not z3.is_const(gv.z):
+                            nm = fresh(BOOL, "ghost_" + gvar)  # snapshot: later clauses see an atom, not the formula
+                            s2.pc.append(nm.z == gv.z)
+                            gv = nm
+                        s2.vars[gvar] = gv
 
     # -- simple statements
     def s_Pass(self, s, st):
